@@ -327,6 +327,12 @@ func (c *Case) coq() string {
 
 var oneD = []int{1, 2, 3, 7, 10, 16, 32, 48, 63, 64, 65, 96, 100, 128, 192, 250, 256, 333, 512, 1000, 1024}
 
+var largeShapes = [][3]int{
+	{1024, 1, 1}, {1, 1024, 1}, {1, 1, 1024}, {2, 1, 300}, {1, 300, 2}, {3, 1, 341}, {1, 257, 1}, {1, 1, 257},
+	{512, 1, 1}, {513, 1, 1}, {1, 512, 1}, {1, 513, 1}, {1, 1, 512}, {1, 1, 513}, {300, 2, 1}, {2, 300, 1},
+	{1, 2, 511}, {1, 3, 256}, {2, 2, 256}, {1, 1, 1000},
+}
+
 func extent(r *vh.Rng, s, maxGroups int) int {
 	m := r.Intn(maxGroups + 1)
 	var g int
@@ -415,7 +421,24 @@ func gen(r *vh.Rng) *Case {
 	if c.G[0]*c.G[1]*c.G[2] > 3000 {
 		c.G = [3]int{c.S[0] + 1, c.S[1], 1}
 	}
-	if r.Intn(4) == 0 {
+	if r.Intn(6) == 0 {
+		// one large dimension in each position (IDs up to 1023 in x, y or z),
+		// full and partial last work-groups
+		c.S = largeShapes[r.Intn(len(largeShapes))]
+		for d := 0; d < 3; d++ {
+			c.G[d] = c.S[d]
+			if c.S[d] > 16 {
+				switch r.Intn(4) {
+				case 0:
+					c.G[d] = c.S[d] + 1
+				case 1:
+					c.G[d] = c.S[d] + 1 + r.Intn(c.S[d])
+				case 2:
+					c.G[d] = c.S[d] - r.Intn(c.S[d]/4+1)
+				}
+			}
+		}
+	} else if r.Intn(4) == 0 {
 		// more than one work-group in every dimension
 		for d := 0; d < 3; d++ {
 			c.S[d] = 1 + r.Intn(5)
